@@ -406,9 +406,63 @@ where
         *self.spawned.lock() += 1;
         let fin = self.finished.clone();
         tokio::spawn(async move {
-            let _ = fut.await;
+            crate::net::SpinGuard::new(fut).await;
             *fin.lock() += 1;
         });
+    }
+}
+
+// ------------------------------------------------------------------------------------------
+// a per-connection service that insists on tower's readiness contract
+
+/// Like tower's ConcurrencyLimit / Buffer / RateLimit: every clone must be driven to readiness
+/// (`poll_ready` returning Ready) before each `call`. The first `poll_ready` of a clone answers
+/// Pending once (a lazily initialised service). A call on a clone that is not ready is counted
+/// and fails, which closes the connection the way a panicking limit service would.
+pub struct NeedsReady<S> {
+    pub inner: S,
+    pub ready: bool,
+    pub warmed: bool,
+    pub log: Arc<Mutex<HandlerLog>>,
+}
+
+impl<S: Clone> Clone for NeedsReady<S> {
+    fn clone(&self) -> Self {
+        NeedsReady { inner: self.inner.clone(), ready: false, warmed: self.warmed, log: self.log.clone() }
+    }
+}
+
+impl<S, R, Resp> tower::Service<R> for NeedsReady<S>
+where
+    S: tower::Service<R, Response = Resp, Error = BoxError>,
+    S::Future: Send + 'static,
+    Resp: 'static,
+{
+    type Response = Resp;
+    type Error = BoxError;
+    type Future = Pin<Box<dyn Future<Output = Result<Resp, BoxError>> + Send>>;
+
+    fn poll_ready(&mut self, cx: &mut Context<'_>) -> Poll<Result<(), BoxError>> {
+        if !self.warmed {
+            self.warmed = true;
+            cx.waker().wake_by_ref();
+            return Poll::Pending;
+        }
+        match self.inner.poll_ready(cx) {
+            Poll::Ready(Ok(())) => {
+                self.ready = true;
+                Poll::Ready(Ok(()))
+            }
+            other => other,
+        }
+    }
+
+    fn call(&mut self, req: R) -> Self::Future {
+        if !std::mem::replace(&mut self.ready, false) {
+            self.log.lock().unready_calls += 1;
+            return Box::pin(async { Err::<Resp, BoxError>("service called before poll_ready returned Ready".into()) });
+        }
+        Box::pin(self.inner.call(req))
     }
 }
 
@@ -466,6 +520,9 @@ pub struct HandlerLog {
     pub upgraded_conns: Vec<u32>,
     pub upgrade_seen_index: Vec<(u32, usize)>,
     pub echo_bytes: u64,
+    /// calls that reached the per-connection service although nobody had driven that clone of it
+    /// to readiness first (tower's contract; ConcurrencyLimit, Buffer, RateLimit rely on it)
+    pub unready_calls: u64,
 }
 
 #[derive(Clone)]
@@ -661,7 +718,7 @@ pub async fn run_server(
     exec: SimExecutor,
     shutdown: Option<tokio::sync::oneshot::Receiver<()>>,
 ) -> Result<(), hyperdriver::server::ServerError> {
-    run_server_opts(acceptor, proto, tls, ctx, exec, shutdown, false).await
+    run_server_opts(acceptor, proto, tls, ctx, exec, shutdown, false, false).await
 }
 
 /// `native_h1`: an http1-only server is configured by hyperdriver's own `with_http1()` (its Date
@@ -674,6 +731,7 @@ pub async fn run_server_opts(
     exec: SimExecutor,
     shutdown: Option<tokio::sync::oneshot::Receiver<()>>,
     native_h1: bool,
+    tls_info: bool,
 ) -> Result<(), hyperdriver::server::ServerError> {
     use hyperdriver::info::HasConnectionInfo;
     use hyperdriver::server::conn::Acceptor;
@@ -686,7 +744,8 @@ pub async fn run_server_opts(
         let conn = stream.info().remote_addr().0;
         let ctx = ctx.clone();
         async move {
-            Ok::<_, Infallible>(tower::service_fn(move |req: http::Request<hyperdriver::Body>| handle(ctx.clone(), conn, req)))
+            let log = ctx.log.clone();
+            Ok::<_, Infallible>(NeedsReady { inner: tower::service_fn(move |req: http::Request<hyperdriver::Body>| handle(ctx.clone(), conn, req)), ready: false, warmed: false, log })
         }
     });
     let signal = async move {
@@ -702,25 +761,37 @@ pub async fn run_server_opts(
     // hyper's own builder option switches it off. Everything else is what with_auto_http() /
     // with_http1() / with_http2() would configure.
     use hyperdriver::bridge::rt::TokioExecutor;
+    macro_rules! serve {
+        ($b:expr) => {{
+            let b = $b;
+            match proto {
+                ServerProto::Auto => {
+                    let mut p = hyperdriver::server::AutoBuilder::new(TokioExecutor::new());
+                    p.http1().auto_date_header(false);
+                    p.http2().auto_date_header(false);
+                    b.with_protocol(p).with_executor(exec).with_graceful_shutdown(signal).await
+                }
+                ServerProto::H1 if native_h1 => b.with_http1().with_executor(exec).with_graceful_shutdown(signal).await,
+                ServerProto::H1 => {
+                    let mut p = hyperdriver::server::conn::http1::Builder::new();
+                    p.auto_date_header(false);
+                    b.with_protocol(p).with_executor(exec).with_graceful_shutdown(signal).await
+                }
+                ServerProto::H2 => {
+                    let mut p = hyperdriver::server::conn::http2::Builder::new(TokioExecutor::new());
+                    p.auto_date_header(false);
+                    b.with_protocol(p).with_executor(exec).with_graceful_shutdown(signal).await
+                }
+            }
+        }};
+    }
     let b = hyperdriver::Server::builder::<hyperdriver::Body>().with_acceptor(acc).with_make_service(make);
-    match proto {
-        ServerProto::Auto => {
-            let mut p = hyperdriver::server::AutoBuilder::new(TokioExecutor::new());
-            p.http1().auto_date_header(false);
-            p.http2().auto_date_header(false);
-            b.with_protocol(p).with_executor(exec).with_graceful_shutdown(signal).await
-        }
-        ServerProto::H1 if native_h1 => b.with_http1().with_executor(exec).with_graceful_shutdown(signal).await,
-        ServerProto::H1 => {
-            let mut p = hyperdriver::server::conn::http1::Builder::new();
-            p.auto_date_header(false);
-            b.with_protocol(p).with_executor(exec).with_graceful_shutdown(signal).await
-        }
-        ServerProto::H2 => {
-            let mut p = hyperdriver::server::conn::http2::Builder::new(TokioExecutor::new());
-            p.auto_date_header(false);
-            b.with_protocol(p).with_executor(exec).with_graceful_shutdown(signal).await
-        }
+    if tls_info {
+        // the make-service is wrapped in the layer that hands the TLS handshake's outcome to the
+        // requests (Server::with_tls_connection_info), as in the repository's own TLS example
+        serve!(b.with_tls_connection_info())
+    } else {
+        serve!(b)
     }
 }
 
